@@ -610,7 +610,40 @@ def boundary_cases():
                        {'kind': 'good', 'hex': h(pkl.int32_frame(f2)), 'expected': [['edge.after', 200.0, 2.0]], 'cls': 'good'}]}
 
 
+def flood_cases():
+  """1100-2100 malformed items on one long-lived connection / socket (a broken client that keeps sending), with
+  well-formed ones in between and at the end: the 1000th malformed item is skipped like the first."""
+  def g(i):
+    return {'kind': 'good', 'hex': h(('flood.ok%d 1 %d' % (i, 100 + i)).encode()), 'expected': [['flood.ok%d' % i, 100.0 + i, 1.0]], 'cls': 'good'}
+  bads = [b'one two', b'a b c', b'x 1', b'\xff\xfe 1 2', b'n 1 notanumber', b'']
+  for n in (1100, 2100):
+    items = [g(0)]
+    for i in range(n):
+      items.append({'kind': 'bad', 'hex': h(bads[i % len(bads)] or b'q'), 'expected': [], 'cls': 'flood'})
+      if i % 400 == 399:
+        items.append(g(i))
+    items.append(g(n))
+    yield {'listener': 'line', 'items': items, 'cuts': [7, 900], 'lists': False, 'flood': True}
+    yield {'listener': 'udp', 'datagrams': [{'items': items[k:k + 50], 'final_eol': True} for k in range(0, len(items), 50)], 'lists': False, 'flood': True}
+    entries = []
+    exp = []
+    for i in range(n):
+      entries.append(('bad', 5) if i % 2 else ('bad', (1,)))
+      if i % 400 == 399:
+        entries.append(('flood.ok%d' % i, (100 + i, 1.0)))
+        exp.append(['flood.ok%d' % i, 100.0 + i, 1.0])
+    frames = []
+    for k in range(0, len(entries), 100):
+      chunk = entries[k:k + 100]
+      frames.append({'kind': 'good', 'hex': h(pkl.int32_frame(pickle.dumps(chunk, protocol=2))),
+                     'expected': [[e[0], float(e[1][0]), float(e[1][1])] for e in chunk if e[0] != 'bad'], 'cls': 'good-frame-with-bad-entry:flood'})
+    yield {'listener': 'pickle', 'items': frames, 'cuts': [3, 5000], 'lists': False, 'flood': True}
+
+
 def run(ctx):
+  if (ctx.shard or 0) == 0:
+    for case in flood_cases():
+      execute(ctx, case)
   if (ctx.shard or 0) == 0:
     nb = 0
     for case in boundary_cases():
